@@ -332,6 +332,12 @@ def wf(v, name="v"):
         facts.append(
             z3.ForAll([k], z3.Implies(dom[k], z3.And(0 <= pos(k), pos(k) < ln, arr[pos(k)] == k)))
         )
+    elif isinstance(t, Map) and isinstance(t.v, List):
+        # the values of a dict of lists are lists: their lengths are non-negative
+        k = z3.Int(f"{name}!mk")
+        ln = v.c[1]
+        if z3.is_const(ln) and ln.decl().kind() == z3.Z3_OP_UNINTERPRETED:
+            facts.append(z3.ForAll([k], ln[k] >= 0, patterns=[ln[k]]))
     elif isinstance(t, (Tuple, Rec)):
         for sub in split(t, v.c):
             facts.extend(wf(sub, name))
